@@ -238,6 +238,8 @@ type Exec struct {
 	submittedDeps atomic.Int64
 
 	ctx, otherCtx context.Context
+	deadCtx       [3]context.Context // contexts that are done from the start (DeadCtx jobs)
+	deadCancel    context.CancelFunc
 	cancelFn      context.CancelFunc
 	cancelReq     atomic.Int64 // stamp taken before cancel() is called (0: never)
 	cancelStamp   atomic.Int64 // stamp taken after cancel() returned
@@ -393,7 +395,7 @@ func (x *Exec) body(i int) func(context.Context) error {
 			r.end.Store(x.stamp())
 		}()
 		want := x.marker
-		if spec.OtherCtx {
+		if spec.OtherCtx || spec.DeadCtx > 0 {
 			want = x.otherMarker
 		}
 		if p, _ := ctx.Value(ctxKey{}).(*int); p == want {
@@ -496,6 +498,13 @@ func newExec(sc *Scenario, quiet bool) *Exec {
 		x.ctx, x.cancelFn = context.WithCancel(root)
 	}
 	x.otherCtx = context.WithValue(context.Background(), ctxKey{}, x.otherMarker)
+	{
+		c1, cancel1 := context.WithCancel(context.WithValue(context.Background(), ctxKey{}, x.otherMarker))
+		cancel1()
+		c2, cancel2 := context.WithDeadline(context.WithValue(context.Background(), ctxKey{}, x.otherMarker), time.Now().Add(-time.Hour))
+		x.deadCtx = [3]context.Context{nil, c1, c2}
+		x.deadCancel = cancel2
+	}
 	x.gate = make(chan struct{})
 	x.reached = make(chan struct{})
 	x.finished = make(chan struct{})
@@ -633,6 +642,9 @@ func (x *Exec) enqueue(s *scheduler.Scheduler, i int) {
 	ctx := x.ctx
 	if spec.OtherCtx {
 		ctx = x.otherCtx
+	}
+	if spec.DeadCtx > 0 {
+		ctx = x.deadCtx[spec.DeadCtx]
 	}
 	if !x.quiet {
 		x.submitted.Add(1)
